@@ -16,6 +16,15 @@
 //!                the real `parse` vs the model op `sel` (Parse/Select.lean): both counters of the
 //!                statement parser (`select_depth`, `depth`), chains of 58..70 bodies, truncations,
 //!                mutants, soups; inputs that leave the fragment (`outside`) are counted, not compared.
+//!   nest.*       expression nesting × subquery nesting (`SELECT expr [FROM t | ( SELECT … )] [WHERE expr]` with
+//!                EXISTS ( SELECT … ) / [NOT] IN ( SELECT … ) / IN lists inside expressions) through the real
+//!                `parse` vs the model op `nest` (Parse/Nest.lean): the expression-nesting budget is ONE per
+//!                statement.  nest.directed (levels × prefix operators: 2 × 40, 60 × 60, … — first),
+//!                nest.mixed (seeded spines mixing prefix operators / parentheses / right operands / IN lists
+//!                with IN / EXISTS / FROM subqueries, live frames 50..80; far above the limit in the child
+//!                process), nest.tree / nest.mutant / nest.soup.  Oracles: an accepted statement never needs
+//!                more than 64 live expression frames across subquery boundaries (generator count and AST),
+//!                the child never dies.
 //!   known.*      directed reproduction of the listed KNOWN finding and directed regression inputs of
 //!                the two FIXED ones, before any random stream.
 //!   soup         random token lists over the model alphabet (mostly ill-formed): Ok/Err, error kind
@@ -2242,6 +2251,780 @@ fn stream_select(m: &mut Model, rep: &mut Report, rng: &Rng, thorough: bool) {
     rep.note("select.*: SELECT skeleton `* [FROM t|( SELECT … )] [WHERE EXISTS ( SELECT … )]` through the real np::parse vs model op `sel`; inputs the model answers `outside` (aliases, binary `*`, non-EXISTS conditions, non-SELECT statements) are counted under select.outside and not compared");
 }
 
+// ------------------------------------------------------------------ stream (v): expression × subquery nesting
+//
+// Model: Parse/Nest.lean, driver op `nest`.  The statement parser keeps ONE expression-nesting budget
+// (`depth`, MAX_DEPTH = 64 live parse_expr_bp frames) for the whole statement: a subquery reached from
+// inside an expression (`x IN ( SELECT …`, `EXISTS ( SELECT …`) is parsed with that expression's frames
+// still counted.  Streams that nest one construct only cannot see whether the budget is per statement or
+// per SELECT body; these streams mix k subquery levels with m_i operators per level, with the TOTAL
+// around the limit.
+//   nest.directed  the shapes of the statement-wide bound: levels × prefix operators (2 × 40, 60 × 60, …)
+//   nest.mixed     seeded spines of frame openers (prefix operators, parentheses, binary right operands,
+//                  IN lists, `c IN ( SELECT`, `EXISTS ( SELECT`) interleaved with FROM subqueries and WHERE
+//                  hops, totals 50..80 (in-process, AST compared), a few far above (child process only)
+//   nest.tree / nest.mutant / nest.soup   grammar-generated statements of the fragment, one-token mutants,
+//                  token soups: Ok tree / error kind / error token compared with the model
+// Oracles on the implementation alone:
+//   neumann_parser::Parser::parse_expr_bp/over_deep_input_accepted   an input whose live expression nesting
+//                  (known from the generator, or recomputed from the returned AST) exceeds 64 was accepted
+//   neumann_parser::Parser::parse_expr_bp/stack_overflow             the child died on a 2 MiB stack
+
+const NEST_LIMIT: usize = 64;
+
+/// model token words (Nest alphabet) -> SQL text with the token-start table.
+/// `compact`: no blank after `!` `~` `(` and none before `)` (the spelling of the directed shapes).
+fn nest_render(words: &[String], r: &mut Rng, fancy: bool, compact: bool) -> Rendered {
+    let mut text = String::new();
+    let mut starts = Vec::new();
+    if fancy && r.chance(1, 8) {
+        text.push_str(sep(r, true));
+    }
+    for (i, w) in words.iter().enumerate() {
+        if i > 0 {
+            let prev = words[i - 1].as_str();
+            let glue = compact && (matches!(prev, "bang" | "tilde" | "(") || w == ")");
+            if !glue {
+                text.push_str(sep(r, fancy));
+            }
+        }
+        starts.push(text.len());
+        let t: String = match w.as_str() {
+            "select" => (*r.pick(&["SELECT", "select", "Select"])).into(),
+            "from" => (*r.pick(&["FROM", "from"])).into(),
+            "where" => (*r.pick(&["WHERE", "where"])).into(),
+            "exists" => (*r.pick(&["EXISTS", "exists"])).into(),
+            "in" => (*r.pick(&["IN", "in"])).into(),
+            "not" => (*r.pick(&["NOT", "not", "Not"])).into(),
+            "bang" => "!".into(),
+            "tilde" => "~".into(),
+            "other" => (*r.pick(&[";", "]", "}", ":", "THEN", "BY"])).into(),
+            "(" | ")" => w.clone(),
+            _ => {
+                if let Some(b) = BIN.iter().find(|b| b.0 == w) {
+                    (*r.pick(b.1)).into()
+                } else if let Some(k) = w.strip_prefix('n') {
+                    k.to_string()
+                } else {
+                    w.clone() // c<k>
+                }
+            }
+        };
+        text.push_str(&t);
+    }
+    Rendered { text, starts }
+}
+
+/// (S-expression in the driver's `showNQ` syntax, live frames, select depth) of a real AST that lies in
+/// the fragment; `None` when it does not.  The two measures are `E.frames` / `E.sdepth` of Nest.lean.
+fn nest_e(e: &np::Expr) -> Option<(String, usize, usize)> {
+    Some(match &e.kind {
+        ExprKind::Literal(Literal::Integer(n)) if *n >= 0 => (format!("n{n}"), 1, 0),
+        ExprKind::Ident(i) => (i.name.clone(), 1, 0),
+        ExprKind::Wildcard => ("*".into(), 1, 0),
+        ExprKind::Tuple(v) if v.is_empty() => ("()".into(), 1, 0),
+        ExprKind::Unary(op, x) => {
+            let (s, f, d) = nest_e(x)?;
+            (format!("({} {s})", un_name(*op)), 1 + f, d)
+        }
+        ExprKind::Binary(l, op, rr) => {
+            let (sl, fl, dl) = nest_e(l)?;
+            let (sr, fr, dr) = nest_e(rr)?;
+            (format!("({} {sl} {sr})", bin_name(*op)), fl.max(1 + fr), dl.max(dr))
+        }
+        ExprKind::Exists(q) => {
+            let (s, f, d) = nest_q(q)?;
+            (format!("(exists {s})"), 1 + f, d)
+        }
+        ExprKind::In { expr, list, negated } => {
+            let (se, fe, de) = nest_e(expr)?;
+            let kw = if *negated { "notin" } else { "in" };
+            match list {
+                np::InList::Subquery(q) => {
+                    let (s, f, d) = nest_q(q)?;
+                    (format!("({kw} {se} {s})"), fe.max(1 + f), de.max(d))
+                }
+                np::InList::Values(v) if v.is_empty() => (format!("({kw} {se})"), fe, de),
+                np::InList::Values(v) if v.len() == 1 => {
+                    let (s, f, d) = nest_e(&v[0])?;
+                    (format!("({kw} {se} {s})"), fe.max(1 + f), de.max(d))
+                }
+                _ => return None,
+            }
+        }
+        _ => return None,
+    })
+}
+
+fn nest_q(s: &np::SelectStmt) -> Option<(String, usize, usize)> {
+    if s.distinct || s.columns.len() != 1 || !s.group_by.is_empty() || s.having.is_some()
+        || !s.order_by.is_empty() || s.limit.is_some() || s.offset.is_some() || s.columns[0].alias.is_some()
+    {
+        return None;
+    }
+    let (si, fi, di) = nest_e(&s.columns[0].expr)?;
+    let (ss, fs, ds) = match &s.from {
+        None => ("-".to_string(), 0, 0),
+        Some(fc) => {
+            if !fc.joins.is_empty() || fc.table.alias.is_some() {
+                return None;
+            }
+            match &fc.table.kind {
+                np::TableRefKind::Table(id) => (id.name.clone(), 0, 0),
+                np::TableRefKind::Subquery(b) => nest_q(b)?,
+            }
+        }
+    };
+    let (sw, fw, dw) = match &s.where_clause {
+        None => ("-".to_string(), 0, 0),
+        Some(e) => nest_e(e)?,
+    };
+    Some((format!("(q {si} {ss} {sw})"), fi.max(fs).max(fw), 1 + di.max(ds).max(dw)))
+}
+
+/// Lower bound of the parse_expr_bp frames that were simultaneously active while ANY real AST was
+/// built (every construct, not only the fragment): each sub-expression that the parser reads through
+/// `parse_expr` / `parse_expr_bp` costs one frame on top of its parent's; subquery bodies are counted
+/// on top of the expression that contains them.
+fn live_frames_e(e: &np::Expr) -> usize {
+    let sub = |x: &np::Expr| 1 + live_frames_e(x);
+    match &e.kind {
+        ExprKind::Unary(_, x) => sub(x),
+        ExprKind::Binary(l, _, rr) => live_frames_e(l).max(sub(rr)),
+        ExprKind::Exists(q) => 1 + live_frames_q(q),
+        ExprKind::Subquery(q) => 1 + live_frames_q(q),
+        ExprKind::In { expr, list, .. } => live_frames_e(expr).max(match list {
+            np::InList::Subquery(q) => 1 + live_frames_q(q),
+            np::InList::Values(v) => v.iter().map(sub).max().unwrap_or(0),
+        }),
+        ExprKind::Between { expr, low, high, .. } => live_frames_e(expr).max(sub(low)).max(sub(high)),
+        ExprKind::Like { expr, pattern, .. } => live_frames_e(expr).max(sub(pattern)),
+        ExprKind::IsNull { expr, .. } => live_frames_e(expr),
+        ExprKind::Qualified(b, _) => live_frames_e(b),
+        ExprKind::Call(c) => c.args.iter().map(sub).max().unwrap_or(1),
+        ExprKind::Array(v) | ExprKind::Tuple(v) => v.iter().map(sub).max().unwrap_or(1),
+        ExprKind::Cast(x, _) => sub(x),
+        ExprKind::Case(c) => {
+            let mut m = 1;
+            if let Some(o) = &c.operand {
+                m = m.max(sub(o));
+            }
+            for w in &c.when_clauses {
+                m = m.max(sub(&w.condition)).max(sub(&w.result));
+            }
+            if let Some(o) = &c.else_clause {
+                m = m.max(sub(o));
+            }
+            m
+        }
+        _ => 1,
+    }
+}
+
+fn live_frames_q(s: &np::SelectStmt) -> usize {
+    let mut m = 0;
+    for c in &s.columns {
+        m = m.max(live_frames_e(&c.expr));
+    }
+    if let Some(fc) = &s.from {
+        let mut trefs = vec![&fc.table];
+        for j in &fc.joins {
+            trefs.push(&j.table);
+            if let Some(np::JoinCondition::On(e)) = &j.condition {
+                m = m.max(live_frames_e(e));
+            }
+        }
+        for t in trefs {
+            if let np::TableRefKind::Subquery(b) = &t.kind {
+                m = m.max(live_frames_q(b));
+            }
+        }
+    }
+    for e in s.where_clause.iter().chain(s.having.iter()).chain(s.limit.iter()).chain(s.offset.iter()) {
+        m = m.max(live_frames_e(e));
+    }
+    for e in &s.group_by {
+        m = m.max(live_frames_e(e));
+    }
+    for o in &s.order_by {
+        m = m.max(live_frames_e(&o.expr));
+    }
+    m
+}
+
+/// in-process parse (the caller bounds the nesting); answer in the driver's `nest` syntax plus the
+/// live-frame lower bound of the returned AST
+fn real_parse_nest(rd: &Rendered) -> (String, Option<usize>) {
+    let text = rd.text.clone();
+    match guarded(move || np::parse(&text)) {
+        Ok(Ok(st)) => match &st.kind {
+            StatementKind::Select(s) => {
+                let live = live_frames_q(s);
+                match nest_q(s) {
+                    Some((x, f, d)) => (format!("ok {f} {d} {x}"), Some(live)),
+                    None => ("ok <non-fragment>".into(), Some(live)),
+                }
+            }
+            _ => ("ok <not-select>".into(), None),
+        },
+        Ok(Err(e)) => (canon_err(&e, rd), None),
+        Err(p) => (format!("panic {p}"), None),
+    }
+}
+
+const OVER_DEEP: &str = "neumann_parser::Parser::parse_expr_bp/over_deep_input_accepted";
+
+fn result_tag(imp: &str) -> String {
+    if imp.starts_with("ok") {
+        "ok".to_string()
+    } else {
+        imp.split(' ')
+            .take(3)
+            .enumerate()
+            .filter(|(i, w)| *i < 2 || !w.chars().all(|c| c.is_ascii_digit()))
+            .map(|(_, w)| w)
+            .collect::<Vec<_>>()
+            .join("_")
+            .replace('(', "lparen")
+            .replace(')', "rparen")
+    }
+}
+
+/// one in-process correspondence case; returns (impl answer, model answer)
+fn nest_case(m: &mut Model, rep: &mut Report, r: &mut Rng, words: &[String], stream: &str, compact: bool) -> (String, String, Rendered) {
+    let fancy = !compact && r.chance(1, 5);
+    let rd = nest_render(words, r, fancy, compact);
+    let (imp, live) = real_parse_nest(&rd);
+    let model = m.ask(&format!("nest {}", words.join(" ")));
+    rep.case(stream, if words.len() >= 6 { Some(&rd.text) } else { None });
+    if imp.starts_with("panic") {
+        viol_once(rep, "neumann_parser::parse/panic", &format!("statement parser panicked: {imp}"), json!({"text": rd.text}));
+    }
+    // property oracle on the implementation's own output: an accepted statement never needed more
+    // than MAX_DEPTH simultaneously active expression frames, counted across subquery boundaries
+    if let Some(l) = live {
+        rep.hit(&format!("nest.accepted.live_frames.{:02}", (l / 8) * 8));
+        if l > NEST_LIMIT {
+            viol_once(rep, OVER_DEEP,
+                &format!("the statement was accepted although its AST needs at least {l} simultaneously active parse_expr_bp frames (limit {NEST_LIMIT}): the expression-nesting bound is not statement-wide (model: {})", &model[..model.len().min(40)]),
+                json!({"text": rd.text, "live_frames_of_returned_ast": l, "tokens": words.join(" ")}));
+        }
+    }
+    if model == "outside" {
+        rep.hit("nest.outside");
+        rep.hit(if imp.starts_with("ok") { "nest.outside.real_ok" } else { "nest.outside.real_err" });
+        return (imp, model, rd);
+    }
+    rep.compare(stream, || json!({"text": rd.text, "tokens": words.join(" ")}), &imp, &model);
+    rep.hit(&format!("nest.result.{}", result_tag(&imp)));
+    if rep.samples.len() < 14 && words.len() > 12 && r.chance(1, 40) {
+        rep.sample(json!({"stream": stream, "text": rd.text, "real": &imp[..imp.len().min(300)], "model": &model[..model.len().min(300)]}));
+    }
+    (imp, model, rd)
+}
+
+/// `text` through the real `parse` in the child process (2 MiB stack, twice, catch_unwind, timeout);
+/// answer canonicalised to the driver's error syntax where possible.  A dead child is a violation
+/// with the full text.
+fn nest_child(adv: &mut Adv, rep: &mut Report, stream: &str, rd: &Rendered, what: &str) -> String {
+    let line = format!("parse {} {}", adv.stack_kb, hex(rd.text.as_bytes()));
+    let ans = adv.w.ask(&line, Duration::from_secs(60));
+    rep.case(stream, None);
+    match ans {
+        Ok(a) => {
+            let mut it = a.split(' ');
+            match it.next().unwrap_or("") {
+                "ok" => "ok".to_string(),
+                "err" => {
+                    let s: usize = it.next().and_then(|x| x.parse().ok()).unwrap_or(usize::MAX);
+                    let e: usize = it.next().and_then(|x| x.parse().ok()).unwrap_or(usize::MAX);
+                    let kind = it.next().unwrap_or("?");
+                    if !(s <= e && e <= rd.text.len()) {
+                        once(&mut adv.reported, rep, "neumann_parser::parse/span_outside_input",
+                            &format!("error span {s}..{e} not inside input of {} bytes", rd.text.len()), json!({"text": rd.text}));
+                    }
+                    match kind {
+                        "TooDeep" => format!("err too_deep {}", tok_index(rd, s)),
+                        k => format!("err {k} {}", tok_index(rd, s)),
+                    }
+                }
+                _ => a.clone(),
+            }
+        }
+        Err(kind) => {
+            let k = if kind == "hang" { "hang" } else { adv.w.death_kind() };
+            adv.w.kill();
+            adv.w = Worker::spawn();
+            rep.hit(&format!("{stream}.child.{k}"));
+            once(&mut adv.reported, rep,
+                &format!("neumann_parser::Parser::parse_expr_bp/{k}"),
+                &format!("parse on a {}-byte statement ({what}) in a thread with a {} KiB stack: {}", rd.text.len(), adv.stack_kb,
+                    match k {
+                        "hang" => "no answer within 60 s",
+                        "stack_overflow" => "the thread overflowed its stack and the process was killed (not catchable): the nesting limits do not bound the recursion",
+                        _ => "the process aborted",
+                    }),
+                json!({"text": rd.text, "stack_kb": adv.stack_kb, "gen": what}));
+            format!("died:{k}")
+        }
+    }
+}
+
+/// a frame opener of a spine (see `Opener` in Nest.lean) or a zero-cost hop
+#[derive(Clone, Copy, Debug, PartialEq)]
+enum Sp {
+    Pre(&'static str),
+    Paren,
+    /// `n<k> <op>`: the rest is the right operand (a new frame)
+    BinR(usize),
+    /// `n<k> [NOT] IN (`: the rest is the single list value (a new frame)
+    InList(bool),
+    /// `c<k> [NOT] IN ( SELECT`
+    InSel(bool),
+    /// `EXISTS ( SELECT`
+    ExSel,
+    /// `* FROM ( SELECT` at the start of a select item: a new body, no frame stays active
+    FromSub,
+    /// `* WHERE` / `n1 FROM c2 WHERE` at the start of a select item: continue in the WHERE clause
+    WhereHop(bool),
+}
+
+impl Sp {
+    fn opens_frame(&self) -> bool {
+        !matches!(self, Sp::FromSub | Sp::WhereHop(_))
+    }
+    fn opens_body(&self) -> bool {
+        matches!(self, Sp::InSel(_) | Sp::ExSel | Sp::FromSub)
+    }
+}
+
+/// binding powers of the model's `infixBp` by BIN index (documented level ℓ ↦ (2ℓ-1, 2ℓ))
+fn lbp_of(o: usize) -> u8 {
+    2 * BIN[o].3 - 1
+}
+
+/// A spine with exactly `n_open` frame openers of which `n_sub` enter a subquery from inside an
+/// expression, plus zero-cost FROM-subquery / WHERE hops.  Returns (ops, words, closers in order).
+fn gen_spine(r: &mut Rng, n_open: usize, n_sub: usize, hops: bool, only: Option<Sp>) -> (Vec<Sp>, Vec<String>, usize) {
+    // which of the n_open positions are subquery openers
+    let mut is_sub = vec![false; n_open];
+    let mut idx: Vec<usize> = (0..n_open).collect();
+    r.shuffle(&mut idx);
+    for i in idx.into_iter().take(n_sub.min(n_open)) {
+        is_sub[i] = true;
+    }
+    let mut ops: Vec<Sp> = Vec::new();
+    let mut words: Vec<String> = vec!["select".into()];
+    let mut closers: Vec<&'static str> = Vec::new();
+    let mut item_start = true;
+    let mut cur_bp: u8 = 0;
+    let mut k = 0usize;
+    let atom = |k: &mut usize| {
+        *k += 1;
+        *k % 90 + 1
+    };
+    for i in 0..n_open {
+        // zero-cost hops at the start of a select item
+        while hops && item_start && r.chance(1, 4) {
+            if r.chance(1, 2) {
+                ops.push(Sp::FromSub);
+                for w in ["mul", "from", "(", "select"] {
+                    words.push(w.into());
+                }
+                closers.push(")");
+            } else {
+                let with_from = r.chance(1, 2);
+                ops.push(Sp::WhereHop(with_from));
+                if with_from {
+                    words.push(format!("n{}", atom(&mut k)));
+                    words.push("from".into());
+                    words.push(format!("c{}", atom(&mut k)));
+                } else {
+                    words.push("mul".into());
+                }
+                words.push("where".into());
+                item_start = false;
+            }
+        }
+        let op = if is_sub[i] {
+            if r.chance(1, 2) { Sp::ExSel } else { Sp::InSel(r.chance(1, 3)) }
+        } else if let Some(o) = only {
+            o
+        } else {
+            match r.below(10) {
+                0..=3 => Sp::Pre(*r.pick(&["sub", "not", "bang", "tilde"])),
+                4 | 5 => Sp::Paren,
+                6 => Sp::InList(r.chance(1, 3)),
+                _ => {
+                    // a binary operator whose left binding power lets the loop continue here
+                    let ok: Vec<usize> = (0..19).filter(|o| lbp_of(*o) >= cur_bp).collect();
+                    if ok.is_empty() { Sp::Pre(*r.pick(&["sub", "not", "bang", "tilde"])) } else { Sp::BinR(*r.pick(&ok)) }
+                }
+            }
+        };
+        match op {
+            Sp::Pre(t) => {
+                words.push(t.into());
+                cur_bp = 19;
+            }
+            Sp::Paren => {
+                words.push("(".into());
+                closers.push(")");
+                cur_bp = 0;
+            }
+            Sp::BinR(o) => {
+                words.push(format!("n{}", atom(&mut k)));
+                words.push(BIN[o].0.into());
+                cur_bp = lbp_of(o) + 1;
+            }
+            Sp::InList(neg) => {
+                words.push(format!("n{}", atom(&mut k)));
+                if neg {
+                    words.push("not".into());
+                }
+                words.push("in".into());
+                words.push("(".into());
+                closers.push(")");
+                cur_bp = 0;
+            }
+            Sp::InSel(neg) => {
+                words.push(format!("c{}", atom(&mut k)));
+                if neg {
+                    words.push("not".into());
+                }
+                for w in ["in", "(", "select"] {
+                    words.push(w.into());
+                }
+                closers.push(")");
+                cur_bp = 0;
+            }
+            Sp::ExSel => {
+                for w in ["exists", "(", "select"] {
+                    words.push(w.into());
+                }
+                closers.push(")");
+                cur_bp = 0;
+            }
+            _ => unreachable!(),
+        }
+        item_start = op.opens_body();
+        ops.push(op);
+    }
+    // innermost operand
+    match r.below(6) {
+        0 => words.push("mul".into()),
+        1 => {
+            words.push("(".into());
+            words.push(")".into());
+        }
+        2 => words.push(format!("c{}", atom(&mut k))),
+        _ => words.push(format!("n{}", atom(&mut k))),
+    }
+    let n_closers = closers.len();
+    for c in closers.iter().rev() {
+        words.push((*c).into());
+    }
+    (ops, words, n_closers)
+}
+
+/// `levels` subquery levels with `per` prefix operators each around `c7 IN ( SELECT` / `EXISTS ( SELECT`
+fn level_words(levels: usize, per: usize, op: &str, exists: bool, where_clause: bool) -> Vec<String> {
+    let mut w: Vec<String> = vec!["select".into()];
+    for _ in 0..levels {
+        if where_clause {
+            w.push("mul".into());
+            w.push("where".into());
+        }
+        for _ in 0..per {
+            w.push(op.into());
+        }
+        if exists {
+            for t in ["exists", "(", "select"] {
+                w.push(t.into());
+            }
+        } else {
+            for t in ["c7", "in", "(", "select"] {
+                w.push(t.into());
+            }
+        }
+    }
+    w.push("n1".into());
+    for _ in 0..levels {
+        w.push(")".into());
+    }
+    w
+}
+
+/// One spine / level case: in-process when the nesting is small enough to be safe whatever the parser
+/// does with its limits, always through the child when it is far above the limit.  `live` / `bodies`
+/// = simultaneously active expression frames / SELECT bodies the text needs, from the generator.
+#[allow(clippy::too_many_arguments)]
+fn nest_run(m: &mut Model, rep: &mut Report, r: &mut Rng, adv: &mut Adv, words: &[String], stream: &str,
+            live: usize, bodies: usize, compact: bool, what: &str) -> String {
+    let over = live > NEST_LIMIT || bodies > NEST_LIMIT;
+    rep.hit(&format!("{stream}.live.{}", if live > 120 { "far_above".to_string() } else { format!("{:03}", (live / 5) * 5) }));
+    rep.hit(&format!("{stream}.bodies.{:02}", bodies.min(70) / 4 * 4));
+    rep.hit(if over { "nest.expected.over_deep" } else { "nest.expected.within_limits" });
+    let (imp, rd) = if live <= 130 {
+        let (imp, _model, rd) = nest_case(m, rep, r, words, stream, compact);
+        (imp, rd)
+    } else {
+        let rd = nest_render(words, r, false, compact);
+        let imp = nest_child(adv, rep, stream, &rd, what);
+        let model = m.ask(&format!("nest {}", words.join(" ")));
+        rep.compare(stream, || json!({"text": rd.text, "gen": what, "via": "child process, 2 MiB stack"}), &imp, &model);
+        rep.hit(&format!("nest.result.child.{}", result_tag(&imp)));
+        (imp, rd)
+    };
+    // property oracle, from the generator's own count: over-deep input is rejected with an error
+    if over && imp.starts_with("ok") {
+        viol_once(rep, OVER_DEEP,
+            &format!("{what}: {live} simultaneously active expression frames / {bodies} nested SELECT bodies are needed (limits {NEST_LIMIT} / {NEST_LIMIT}) but the statement was accepted instead of TooDeep"),
+            json!({"text": rd.text, "live_frames": live, "select_bodies": bodies, "gen": what}));
+    }
+    imp
+}
+
+/// Runs before every random stream: levels × operators.  No level exceeds the limit, the statement does.
+fn nest_directed(m: &mut Model, rep: &mut Report, rng: &Rng) {
+    let mut r = rng.fork("nest.directed");
+    let mut adv = Adv { w: Worker::spawn(), stack_kb: 2048, reported: Default::default() };
+    for (levels, per, op, exists, whr) in [
+        (2usize, 40usize, "bang", false, false), // 110 bytes: Ok instead of TooDeep when every SELECT body has its own budget
+        (60, 60, "bang", false, false),          // 4.4 kB: overflows a 2 MiB stack when every SELECT body has its own budget
+        (2, 40, "not", true, true),
+        (3, 30, "sub", true, false),
+        (4, 20, "tilde", false, true),
+        (2, 30, "bang", false, false),           // 63 frames: accepted
+        (2, 31, "bang", false, false),           // 64 openers: TooDeep at the innermost operand
+        (60, 60, "not", true, true),
+        (63, 63, "sub", false, false),
+        (8, 8, "bang", true, false),             // 73 frames
+        (7, 8, "bang", true, false),             // 64 frames: accepted
+    ] {
+        let words = level_words(levels, per, op, exists, whr);
+        let what = format!("{levels} levels of {} × {per} prefix `{op}`{}", if exists { "EXISTS ( SELECT" } else { "c7 IN ( SELECT" }, if whr { " in WHERE" } else { "" });
+        let imp = nest_run(m, rep, &mut r, &mut adv, &words, "nest.directed", 1 + levels * (per + 1), 1 + levels, op == "bang" || op == "tilde", &what);
+        rep.hit(&format!("nest.directed.{}", result_tag(&imp)));
+    }
+}
+
+fn stream_nest(m: &mut Model, rep: &mut Report, rng: &Rng, thorough: bool) {
+    let mut r = rng.fork("nest");
+    let mut adv = Adv { w: Worker::spawn(), stack_kb: 2048, reported: Default::default() };
+
+    // (1) mixed spines, totals concentrated around the limit
+    let n_mixed = if thorough { 40000 } else { 4000 };
+    for i in 0..n_mixed {
+        let n_open = match i % 10 {
+            0 => 2 + r.below(40) as usize,
+            1 => 80 + r.below(45) as usize,
+            _ => 49 + r.below(31) as usize, // live frames 50..80
+        };
+        let n_sub = match r.below(8) {
+            0 => 0,
+            1 => n_open.min(1),
+            2 => r.below(n_open as u64 + 1) as usize,
+            3 => n_open, // subquery openers only: both counters at once
+            _ => 1 + r.below(8.min(n_open as u64)) as usize,
+        };
+        let only = match r.below(6) {
+            0 => Some(Sp::Pre(*r.pick(&["sub", "not", "bang", "tilde"]))),
+            1 => Some(Sp::Paren),
+            _ => None,
+        };
+        let hops = r.chance(3, 4);
+        let (ops, mut words, n_closers) = gen_spine(&mut r, n_open, n_sub, hops, only);
+        // sometimes unclosed / cut somewhere
+        match r.below(12) {
+            0 => {
+                let keep = words.len() - n_closers;
+                words.truncate(keep);
+            }
+            1 => {
+                let keep = 1 + r.below(words.len() as u64) as usize;
+                words.truncate(keep);
+            }
+            _ => {}
+        }
+        let frames = 1 + ops.iter().filter(|o| o.opens_frame()).count();
+        let bodies = 1 + ops.iter().filter(|o| o.opens_body()).count();
+        // a cut spine may stop before the deep part: the generator's count is then an upper bound and
+        // only the AST-based oracle applies
+        let cut = words.len() < 1 + ops.len();
+        let (live, nb) = if cut { (1, 1) } else { (frames, bodies) };
+        nest_run(m, rep, &mut r, &mut adv, &words, "nest.mixed", live, nb, false, "mixed spine");
+    }
+    // far above the limit: child process only
+    let n_far = if thorough { 400 } else { 24 };
+    for i in 0..n_far {
+        let levels = match i % 4 {
+            0 => 50 + r.below(14) as usize,
+            1 => 2 + r.below(6) as usize,
+            _ => 10 + r.below(50) as usize,
+        };
+        let per = match i % 4 {
+            1 => 200 + r.below(800) as usize,
+            _ => 20 + r.below(44) as usize,
+        };
+        let n_open = (levels * (per + 1)).min(3900);
+        let only = if i % 2 == 0 { Some(Sp::Pre(*r.pick(&["sub", "not", "bang", "tilde"]))) } else { None };
+        let (ops, words, _) = gen_spine(&mut r, n_open, levels, i % 3 == 0, only);
+        let frames = 1 + ops.iter().filter(|o| o.opens_frame()).count();
+        let bodies = 1 + ops.iter().filter(|o| o.opens_body()).count();
+        nest_run(m, rep, &mut r, &mut adv, &words, "nest.mixed.far", frames, bodies, i % 2 == 0, &format!("mixed spine, {levels} subquery levels, {n_open} openers"));
+    }
+
+    // (2) grammar-generated statements of the fragment and their one-token mutants
+    fn gen_expr(r: &mut Rng, depth: usize, out: &mut Vec<String>, k: &mut usize) {
+        let mut atom = |r: &mut Rng, out: &mut Vec<String>| {
+            *k += 1;
+            match r.below(8) {
+                0 => out.push("mul".into()),
+                1 => {
+                    out.push("(".into());
+                    out.push(")".into());
+                }
+                2 | 3 => out.push(format!("c{}", *k % 50 + 1)),
+                _ => out.push(format!("n{}", *k % 50 + 1)),
+            }
+        };
+        if depth == 0 {
+            atom(r, out);
+            return;
+        }
+        match r.below(14) {
+            0 | 1 => {
+                out.push((*r.pick(&["sub", "not", "bang", "tilde"])).into());
+                gen_expr(r, depth - 1, out, k);
+            }
+            2 | 3 => {
+                out.push("(".into());
+                gen_expr(r, depth - 1, out, k);
+                out.push(")".into());
+            }
+            4 | 5 | 6 => {
+                gen_expr(r, depth - 1, out, k);
+                out.push(BIN[r.below(19) as usize].0.into());
+                gen_expr(r, depth - 1, out, k);
+            }
+            7 | 8 => {
+                for w in ["exists", "(", "select"] {
+                    out.push(w.into());
+                }
+                gen_body(r, depth - 1, out, k);
+                out.push(")".into());
+            }
+            9 | 10 => {
+                gen_expr(r, depth - 1, out, k);
+                if r.chance(1, 3) {
+                    out.push("not".into());
+                }
+                for w in ["in", "(", "select"] {
+                    out.push(w.into());
+                }
+                gen_body(r, depth - 1, out, k);
+                out.push(")".into());
+            }
+            11 => {
+                gen_expr(r, depth - 1, out, k);
+                if r.chance(1, 3) {
+                    out.push("not".into());
+                }
+                out.push("in".into());
+                out.push("(".into());
+                if r.chance(3, 4) {
+                    gen_expr(r, depth - 1, out, k);
+                }
+                out.push(")".into());
+            }
+            _ => atom(r, out),
+        }
+    }
+    fn gen_body(r: &mut Rng, depth: usize, out: &mut Vec<String>, k: &mut usize) {
+        gen_expr(r, depth, out, k);
+        match r.below(4) {
+            0 => {
+                out.push("from".into());
+                *k += 1;
+                out.push(format!("c{}", *k % 50 + 1));
+            }
+            1 if depth > 0 => {
+                for w in ["from", "(", "select"] {
+                    out.push(w.into());
+                }
+                gen_body(r, depth - 1, out, k);
+                out.push(")".into());
+            }
+            _ => {}
+        }
+        if r.chance(1, 3) {
+            out.push("where".into());
+            gen_expr(r, depth, out, k);
+        }
+    }
+    const NEST_ALPHABET: &[&str] = &[
+        "select", "from", "where", "exists", "in", "(", ")", "n1", "n2", "c1", "c2", "mul", "sub", "add", "and", "or", "eq",
+        "not", "bang", "tilde", "other",
+    ];
+    let n_trees = if thorough { 30000 } else { 3000 };
+    for _ in 0..n_trees {
+        let depth = 1 + r.below(4) as usize;
+        let mut words: Vec<String> = vec!["select".into()];
+        let mut k = 0;
+        gen_body(&mut r, depth, &mut words, &mut k);
+        if words.len() > 400 {
+            continue;
+        }
+        let (imp, _, _) = nest_case(m, rep, &mut r, &words, "nest.tree", false);
+        rep.hit(if imp.starts_with("ok") { "nest.tree.accepted" } else { "nest.tree.rejected" });
+        for _ in 0..2 {
+            let mut w = words.clone();
+            let i = r.below(w.len() as u64) as usize;
+            match r.below(4) {
+                0 => w[i] = (*r.pick(NEST_ALPHABET)).to_string(),
+                1 => w.insert(i, (*r.pick(NEST_ALPHABET)).to_string()),
+                2 => {
+                    w.remove(i);
+                }
+                _ => {
+                    w.truncate(i);
+                    if r.chance(1, 2) {
+                        w.push((*r.pick(NEST_ALPHABET)).to_string());
+                    }
+                }
+            }
+            nest_case(m, rep, &mut r, &w, "nest.mutant", false);
+        }
+    }
+
+    // (3) token soup over the alphabet, following the grammar most of the time
+    let n_soup = if thorough { 60000 } else { 6000 };
+    for _ in 0..n_soup {
+        let len = r.below(14) as usize;
+        let mut w: Vec<String> = Vec::new();
+        if r.chance(7, 8) {
+            w.push("select".into());
+        }
+        for _ in 0..len {
+            let last = w.last().map(|s| s.as_str()).unwrap_or("");
+            let operand: &[&str] = &["n1", "c1", "mul", "(", "sub", "not", "bang", "tilde", "exists", "n2"];
+            let after_operand: &[&str] = &["add", "and", "eq", "in", "not", ")", "from", "where", "mul", "or"];
+            let follow: &[&str] = match last {
+                "select" | "where" | "sub" | "not" | "bang" | "tilde" | "add" | "and" | "or" | "eq" => operand,
+                "(" => &["select", "n1", ")", "c1", "(", "exists"],
+                "exists" | "in" => &["("],
+                "from" => &["(", "c1", "c2"],
+                _ => after_operand,
+            };
+            let t = if r.chance(4, 5) { *r.pick(follow) } else { *r.pick(NEST_ALPHABET) };
+            w.push(t.to_string());
+        }
+        nest_case(m, rep, &mut r, &w, "nest.soup", false);
+    }
+    rep.note("nest.*: `SELECT expr [FROM t | FROM ( SELECT … )] [WHERE expr]` with EXISTS ( SELECT … ) / [NOT] IN ( SELECT … ) / IN lists inside expressions through the real np::parse vs model op `nest` (Parse/Nest.lean); accepted statements are compared as trees together with their live-frame and select-depth measures; inputs the model answers `outside` (function calls, implicit aliases, non-SELECT statements) are counted under nest.outside and not compared; spines with more than 130 live frames run in the child process only (2 MiB stack) and are compared by error kind and token");
+}
+
 // ------------------------------------------------------------------ directed: known finding, fixed findings
 
 /// Runs before every random stream.
@@ -2388,15 +3171,26 @@ fn main() {
     ] {
         rep.expected_branches.push(k.to_string());
     }
+    for k in [
+        "nest.result.ok", "nest.result.err_too_deep", "nest.result.child.err_too_deep", "nest.result.err_eof_expression",
+        "nest.result.err_eof_identifier", "nest.result.err_eof_SELECT", "nest.result.err_eof_lparen", "nest.result.err_eof_rparen",
+        "nest.result.err_unexpected_expression", "nest.result.err_unexpected_identifier", "nest.result.err_unexpected_SELECT",
+        "nest.result.err_unexpected_lparen", "nest.result.err_unexpected_rparen", "nest.outside", "nest.expected.over_deep",
+        "nest.expected.within_limits", "nest.directed.ok", "nest.directed.err_too_deep", "nest.accepted.live_frames.64",
+    ] {
+        rep.expected_branches.push(k.to_string());
+    }
     for k in ["probe.below_limit", "probe.distinguishes_prefix_code", "probe.real.err_too_deep", "stmt.soup.too_deep", "known.negative_number.reproduced"] {
         rep.expected_branches.push(k.to_string());
     }
     directed_known(&mut rep);
     probe_stmt_depth_limit(&mut m, &mut rep, &rng);
+    nest_directed(&mut m, &mut rep, &rng);
     stream_trees(&mut m, &mut rep, &rng, args.thorough);
     stream_soup(&mut m, &mut rep, &rng, args.thorough);
     stream_boundary(&mut m, &mut rep, &rng);
     stream_select(&mut m, &mut rep, &rng, args.thorough);
+    stream_nest(&mut m, &mut rep, &rng, args.thorough);
     stream_adversarial(&mut rep, &rng, args.thorough);
     stream_exec(&mut rep, &rng, args.thorough);
     rep.note("postfix/special forms (IS NULL, IN, BETWEEN, LIKE, calls, CASE, arrays, tuples, qualified names) are opaque atoms of the model; their inner structure is compared only through the real parser's own AST of the atom text");
